@@ -7,7 +7,7 @@
      - the error summary as a multiset of logIDs, and the printed "Number of errors",
      - the set of line indices that were started (their result folder exists). *)
 From stdpp Require Import gmap.
-From Hermes Require Import PoolModel DispatchModel.
+From Hermes Require Import PoolModel DispatchModel OutFileModel.
 
 Fixpoint insert_sorted (x : Z) (l : list Z) : list Z :=
   match l with
@@ -55,3 +55,18 @@ Section Run.
     | d :: r => if case_ok d then mismatches (i + 1) r else i :: mismatches (i + 1) r
     end.
 End Run.
+
+(* ---- result-file writer: one case = hermes.DefaultFoutGenerator(path, append) on a file with
+   the given old content (None = no file), the chunks written through Fout.Write, Close; observed
+   = the bytes of the file afterwards *)
+Record fcase := FCase { fc_old : option (list Z); fc_append : bool; fc_chunks : list (list Z); fc_obs : list Z }.
+
+Definition fcase_ok (c : fcase) : bool :=
+  let fs0 : gmap positive (list Z) := match fc_old c with Some o => {[ 1%positive := o ]} | None => ∅ end in
+  bool_decide (write_file (fc_append c) fs0 1%positive (fc_chunks c) !! 1%positive = Some (fc_obs c)).
+
+Fixpoint fmismatches (i : Z) (l : list fcase) : list Z :=
+  match l with
+  | [] => []
+  | c :: r => if fcase_ok c then fmismatches (i + 1) r else i :: fmismatches (i + 1) r
+  end.
